@@ -26,17 +26,22 @@ BeamDirs == {"ur", "ul", "dl", "dr"}
 (* the Jacobian of the geometric map varies inside an element (simplices included).  None of the spectral attributes depends  *)
 (* on it; the measure of the round domain is the one of the mesh (C07 settles measures), not a rational of this module.       *)
 Shapes == {"box", "round"}
+(* unit of length as a power of ten (the same body in metres or in micrometres): the kernel, the definiteness class and the    *)
+(* symmetry do not depend on it and the mass total scales by 10^(dim * unit) - no coefficient of an assembled matrix is "small" *)
+(* in an absolute sense.                                                                                                       *)
+Units == {0, -6}
 
 Configs ==
-         {[phys |-> "elastic", dim |-> d, elem |-> e, rho |-> r, thick |-> t, dir |-> "ur", shape |-> sh] : d \in {2, 3}, e \in Elems2D \cup Elems3D, r \in Rhos, t \in Thicks, sh \in Shapes}
-    \cup {[phys |-> "thermal", dim |-> d, elem |-> e, rho |-> r, thick |-> t, dir |-> "ur", shape |-> sh] : d \in {1, 2, 3}, e \in Elems1D \cup Elems2D \cup Elems3D, r \in Rhos, t \in Thicks, sh \in Shapes}
+         {[phys |-> "elastic", dim |-> d, elem |-> e, rho |-> r, thick |-> t, dir |-> "ur", shape |-> sh, unit |-> un] : d \in {2, 3}, e \in Elems2D \cup Elems3D, r \in Rhos, t \in Thicks, sh \in Shapes, un \in Units}
+    \cup {[phys |-> "thermal", dim |-> d, elem |-> e, rho |-> r, thick |-> t, dir |-> "ur", shape |-> sh, unit |-> un] : d \in {1, 2, 3}, e \in Elems1D \cup Elems2D \cup Elems3D, r \in Rhos, t \in Thicks, sh \in Shapes, un \in Units}
     \* dir: the quadrant the member is drawn towards (up-right, up-left, down-left, down-right): the local frame of a member
     \* drawn towards -x is a reflection of the global one in 2-D, and none of the expected attributes depends on it
-    \cup {[phys |-> p, dim |-> d, elem |-> e, rho |-> r, thick |-> One, dir |-> q, shape |-> "box"] : p \in {"beamEB", "beamTimo"}, d \in {1, 2, 3}, e \in Elems1D, r \in Rhos, q \in BeamDirs}
+    \cup {[phys |-> p, dim |-> d, elem |-> e, rho |-> r, thick |-> One, dir |-> q, shape |-> "box", unit |-> un] : un \in Units, p \in {"beamEB", "beamTimo"}, d \in {1, 2, 3}, e \in Elems1D, r \in Rhos, q \in BeamDirs}
 
 Valid(c) ==
     /\ c.phys \in {"elastic", "thermal"} => c.elem \in ElemsOf(c.dim)
     /\ (c.dim # 2 /\ c.phys \in {"elastic", "thermal"}) => c.thick = One      \* thickness only exists in 2D
+    /\ (c.unit # 0) => (c.shape = "box" /\ c.thick = One /\ c.dir = "ur")
     /\ (c.shape = "round") => (c.dim \in {2, 3} /\ c.thick = One)
     /\ (c.dim = 1 /\ c.phys \in {"beamEB", "beamTimo"}) => c.dir \in {"ur", "ul"}       \* a 1-D member is drawn towards +x or -x
 
